@@ -209,7 +209,7 @@ StoreDeferredInv ==    \* GetReference, then the store is queued
           /\ embedded' = (Top.x :> R(n)) @@ embedded
           /\ reserved' = IF HasRef(Top.x) THEN reserved ELSE reserved \cup {Top.x}
           /\ deferred' = IF refuse THEN deferred ELSE Append(deferred, [k |-> "sd", x |-> Top.x])
-          /\ cur' = IF refuse THEN cur ELSE Append(cur, [k |-> "sdefer", x |-> Top.x])
+          /\ Log([k |-> "sdefer", x |-> Top.x])
   /\ Tick /\ UNCHANGED <<world, closed, inprog, hist, phase>>
 
 (* ---- Store, putEncoded, StoreEncoded ---- *)
